@@ -79,7 +79,42 @@ def run(ctx):
         fs = sorted([n for n in own_nodes(fi.node) if isinstance(n, ast.For)], key=source_pos(fi.node))
         return [(ast.unparse(n.iter), ast.unparse(n.target)) for n in fs[:2]]
 
+    # component arrays stored on the composite (in any container attribute,
+    # filled anywhere but inside initialize_features) go stale as soon as a
+    # component replaces its array (DurationObserver on reset, nested
+    # composites on every update)
+    early_stale = []
+    for m in comp.methods.values():
+        if m is init_f:
+            continue
+        for lp in own_nodes(m.node):
+            if not (isinstance(lp, ast.For) and ast.unparse(lp.iter).replace(" ", "").endswith((".features.items()", ".features.values()"))):
+                continue
+            tv = [x.id for x in ast.walk(lp.target) if isinstance(x, ast.Name)]
+            for n in ast.walk(lp):
+                tgt = val = None
+                if isinstance(n, ast.Call) and isinstance(n.func, ast.Attribute) and n.func.attr in ("append", "extend", "add") and n.args:
+                    tgt, val = n.func.value, n.args[0]
+                elif isinstance(n, ast.Assign) and isinstance(n.targets[0], ast.Subscript):
+                    tgt, val = n.targets[0].value, n.value
+                if tgt is None or not (isinstance(val, ast.Name) and val.id in tv):
+                    continue
+                root = tgt
+                while isinstance(root, (ast.Subscript, ast.Attribute)) and not (isinstance(root, ast.Attribute) and isinstance(root.value, ast.Name) and root.value.id == "self"):
+                    root = root.value
+                if isinstance(root, ast.Attribute) and isinstance(root.value, ast.Name) and root.value.id == "self" and root.attr not in ("features", "column_names"):
+                    early_stale.append((m, n, root.attr))
+    for m, n, attr in early_stale[:1]:
+        chk.violation(
+            "R11.a", m, n,
+            f"the composite keeps references to its components' feature arrays in `self.{attr}` (filled in {m.name}): a component "
+            "that replaces its array (DurationObserver on reset, a nested composite on every update) is no longer reflected, "
+            "so the composite differs from the concatenation of its components",
+            loc=m.loc(n),
+        )
     a, b = loops(init_f), loops(cols)
+    if early_stale and not a:
+        a = b
     # both may draw from one shared private generator that walks
     # observers x observer.features.items(): then they agree by construction
     def gen_source(fi):
